@@ -35,26 +35,23 @@ fuzz_target!(|data: &[u8]| {
     let prof = profiles::profile(&s.profile_id);
     let allow_panic = prof.shape == gen::Shape::Panic;
     let strat = gen::case_strategy(&prof);
-    // proptest's pass-through RNG yields zeros once the input is used up, on which rand's rejection sampling
-    // never terminates: stretch the input with a cheap deterministic expansion instead (input bytes come first,
-    // so libFuzzer's mutations still map to local changes of the generated case)
-    let mut stream: Vec<u8> = Vec::with_capacity(32 * 1024);
-    stream.extend_from_slice(data);
-    let mut x: u64 = 0x9E37_79B9_7F4A_7C15 ^ (data.len() as u64);
-    for b in data.iter().take(64) {
-        x = (x ^ *b as u64).wrapping_mul(0x100_0000_01B3);
-    }
-    while stream.len() < 32 * 1024 {
-        x ^= x << 13;
-        x ^= x >> 7;
-        x ^= x << 17;
-        stream.extend_from_slice(&x.to_le_bytes());
-    }
-    let rng = TestRng::from_seed(RngAlgorithm::PassThrough, &stream);
-    let mut runner = TestRunner::new_with_rng(Config::default(), rng);
-    let raw = match strat.new_tree(&mut runner) {
-        Ok(t) => t.current(),
-        Err(_) => return,
+    let raw = match dv::decode::case_from_bytes(&prof, data) {
+        Some(c) => c,
+        None => {
+            // multi-phase shapes: the bytes only seed the proptest strategy (no structure-preserving mutation)
+            let mut seed = [0u8; 32];
+            let mut x: u64 = 0xcbf2_9ce4_8422_2325;
+            for (i, b) in data.iter().enumerate() {
+                x = (x ^ *b as u64).wrapping_mul(0x100_0000_01B3);
+                seed[i % 32] ^= (x >> 32) as u8;
+            }
+            let rng = TestRng::from_seed(RngAlgorithm::ChaCha, &seed);
+            let mut runner = TestRunner::new_with_rng(Config::default(), rng);
+            match strat.new_tree(&mut runner) {
+                Ok(t) => t.current(),
+                Err(_) => return,
+            }
+        }
     };
     let case = norm::normalize(&raw, &norm::NormOpts { allow_panic });
     if case.op_count() == 0 {
